@@ -106,6 +106,9 @@ def run(tier):
         if ok:
             raise Broken("negative control: a wrong random-access result was accepted")
     ck.exhaustive = tier == "thorough"
+    # every history of reads, validations, chunk requests and clear_error on one context (MC_Session): the chunk requests judged
+    from .. import session
+    session.run_session(ck, "C14", "chunk", tier, wd, rnd)
     ck.extra["rule"] = "one case = (valid file, sequence of data/stored-data requests); all sequences of length <= 2 (quick) / <= 3 (thorough) over all chunks incl. the dictionary, plus seeded long sequences"
     ck.assumptions = ["files come from the reference writer; expected slices are the writer's own inputs and stored bytes"]
     shutil.rmtree(wd, ignore_errors=True)
